@@ -52,6 +52,8 @@ def plan(tier, seed):
     Ls, Rs, Os = parts(tier)
     cases = [{'L': L, 'sizes': s} for L in Ls for s in ('222', '234') if tier == 'thorough' or s == '222' or '...' not in L]
     tree = [{'tree': sub, 'extra': e} for e in ([2], [2, 3], [2, 1, 2]) for sub in ('ij,j->i', 'ij...,j...->i...', '...ij,...j->...i', 'ikj,kj->ki', 'hij...,hj...->hi...'.replace('h', 'k'), 'ji,j->i', 'kij,kj->ki', 'i j, j -> i', 'k i j, k j -> k i', ' ij , j->i ', 'i j ..., j ... -> i ...')]
+    # many leaves of one shape sharing one block array that carries ellipsis axes of its own
+    tree += [{'many': n, 'sub': sub, 'bell': b} for n in (7, 8, 9, 12) for sub in ('ij...,j...->i...', 'kij...,kj...->ki...', '...ij,...j->...i') for b in ([], [8], [9], [2, 8])]
     return [
         {'name': 'strings', 'target': TARGET, 'x64': False, 'cases': cases, 'chunk': 1, 'ctx': {'nR': len(Rs), 'nO': len(Os)}},
         {'name': 'trees', 'target': TARGET, 'x64': False, 'cases': tree, 'chunk': 1},
@@ -98,6 +100,28 @@ def run(phase, cases, ctx):
     nontrivial = set()
     if phase == 'trees':
         for case in cases:
+            if 'many' in case:
+                sub = case['sub']
+                L, rest = sub.split(',')
+                R, O = rest.split('->')
+                sizes = {'i': 2, 'j': 3, 'k': 2}
+                bell = tuple(case['bell'])
+                bs, xs = shape_of(L, sizes, bell), shape_of(R, sizes, bell)
+                B = (np.arange(int(np.prod(bs))) % 11 * 1.0 - 3).reshape(bs).astype(np.float32)
+                xl = [((np.arange(int(np.prod(xs))) * (q + 2)) % 13 * 1.0 - 5).reshape(xs).astype(np.float32) for q in range(case['many'])]
+                try:
+                    op = DenseBlockDiagonalOperator(jnp.asarray(B), [jax.ShapeDtypeStruct(xs, f32)] * case['many'], sub)
+                    ys = op.mv([jnp.asarray(x) for x in xl])
+                    for q, (y, x) in enumerate(zip(ys, xl)):
+                        w = np.einsum(sub, B, x)
+                        if np.asarray(y).shape != w.shape or not np.array_equal(np.asarray(y), w):
+                            violations.append({'kind': 'tree-mv', 'case': case, 'detail': f'leaf {q} of {case["many"]}: {np.asarray(y).ravel()[:6]} (shape {np.asarray(y).shape}) vs numpy.einsum {w.ravel()[:6]} (shape {w.shape})'})
+                            break
+                except Exception as e:  # noqa: BLE001
+                    err = P.LibError('dense operator on a pytree of many leaves', e)
+                    violations.append({'kind': 'library-raises', 'case': case, 'detail': f'{err}\n{err.tb}'})
+                nontrivial.add(json.dumps(case))
+                continue
             sub = case['tree']
             L, rest = sub.replace(' ', '').split(',')
             R, O = rest.split('->')
@@ -119,6 +143,13 @@ def run(phase, cases, ctx):
                     for k in ('u', 'v'):
                         if not np.array_equal(np.asarray(y[k]), refs[k]):
                             violations.append({'kind': 'tree-mv', 'case': case, 'detail': f'{label} blocks, leaf {k}: {np.asarray(y[k]).ravel()[:6]} vs {refs[k].ravel()[:6]}'})
+                    # one and the same array object as both leaves: the result may depend on the values only
+                    shared_x = jnp.asarray(x1)
+                    ys = op.mv({'u': shared_x, 'v': shared_x})
+                    wants = {'u': np.einsum(sub, B1, x1), 'v': np.einsum(sub, B1 if label == 'shared' else B2, x1)}
+                    for k in ('u', 'v'):
+                        if not np.array_equal(np.asarray(ys[k]), wants[k]):
+                            violations.append({'kind': 'tree-mv-same-array-in-two-leaves', 'case': case, 'detail': f'{label} blocks, leaf {k}: {np.asarray(ys[k]).ravel()[:6]} vs {wants[k].ravel()[:6]}'})
                     M, Mt = P.probe(op, cache=False).M, P.probe(op.T, cache=False).M
                     if not np.array_equal(Mt, M.T):
                         violations.append({'kind': 'tree-transpose', 'case': case, 'detail': f'{label} blocks: probe(A.T) != probe(A)^T'})
